@@ -93,3 +93,15 @@ let () =
       of_result (fun (fr, ((((m, c'), p'), rest'), calls)) -> VT [VB fr; VT [VB m; VB c'; VB p'; VB rest'; VI calls]])
         (Model.c17_ser_recv_in sha256 (List.map vb (vl cmds)) (vi fuel) (vb magic) (vb c) (vb p) (vb rest) (List.map vi (vl sched))) | _ -> bad ())
 
+(* ---- extension: getblocks_payload / headers_payload ---- *)
+let hdrs_v = opt (fun l -> VL (List.map (fun h -> VB h) l))
+let () =
+  register "c17_getblocks_payload" (function [hs; pv] ->
+      of_result (fun b -> VB b) (Model.c17_getblocks_payload (List.map vb (vl hs)) (vopt vi pv)) | _ -> bad ());
+  register "c17_getblocks_rt" (function [hs; pv] ->
+      of_result (fun (p, r) -> VT [VB p; getheaders_v r]) (Model.c17_getblocks_rt (List.map vb (vl hs)) (vopt vi pv)) | _ -> bad ());
+  register "c17_headers_payload" (function [c; hs] ->
+      of_result (fun b -> VB b) (Model.c17_headers_payload (vi c) (List.map vb (vl hs))) | _ -> bad ());
+  register "c17_spec_parse_headers" (function [p] -> ROk (hdrs_v (Model.c17_spec_parse_headers (vb p))) | _ -> bad ());
+  register "c17_headers_rt" (function [c; hs] ->
+      of_result (fun (p, r) -> VT [VB p; hdrs_v r]) (Model.c17_headers_rt (vi c) (List.map vb (vl hs))) | _ -> bad ())
